@@ -102,9 +102,10 @@ func (a *Accessory) Identify() {
 	}
 }
 
-// Adds a service to the accessory and updates the ids of the service and the corresponding characteristics
+// AddService adds a service to the accessory and updates the ids of the services and their characteristics.
 func (a *Accessory) AddService(s *service.Service) {
 	a.Services = append(a.Services, s)
+	a.UpdateIDs()
 }
 
 // UpdateIDs updates the service and characteirstic ids.
